@@ -120,7 +120,7 @@ static FWire c16(Reader& r,FReader& f) {
     case 6: { Vect3 r0=getV(f),q=getV(f),a=getV(f),b=getV(f),c=getV(f),x=getV(f); TMesh tm=one(a,b,c); const Dipole dip(r0,q);
               const analyticDipPotDer an(dip,tm.T()); putV(o,an.f(x)); return o; }
     case 7: { Vect3 r0=getV(f),q=getV(f),x=getV(f); const Dipole dip(r0,q); o.f.push_back(dip.potential(x)); return o; }
-    case 8: case 22: {
+    case 8: case 22: case 25: {
         size_t n=r.n(); std::vector<ll> rot(n); for (auto& t : rot) t=r.z();
         Vect3 x=getV(f), v=getV(f);
         std::vector<Vect3> vs{v}; std::vector<TriangleIndices> ts;
@@ -141,6 +141,23 @@ static FWire c16(Reader& r,FReader& f) {
                 Vect3 nn=crossprod(A-v,B-v); nn=nn/nn.norm();
                 const Vect3 nxg=crossprod(grad,nn);   // grad(phi_V) x n
                 auto fn=[&](const Vect3& y,double* val){ const double rr=(x-y).norm(); val[0]=nxg.x()/rr; val[1]=nxg.y()/rr; val[2]=nxg.z()/rr; };
+                double out[3]; err+=reference<3>(fn,v,A,B,3,out);
+                for (int i=0;i<3;++i) tot[i]+=out[i];
+            }
+            for (int i=0;i<3;++i) o.f.push_back(tot[i]);
+            o.f.push_back(err);
+        }
+        if (op==25) {       // reference from the DEFINITION (Biot-Savart surface term of the hat function of V, before the
+                            // integration by parts): sum over the CLOSED fan of int_T phi_V(y) n_T x (x-y)/|x-y|^3 dS(y),
+                            // n_T by the right-hand rule on the stored vertex order
+            double tot[3]={0,0,0}; double err=0;
+            for (size_t k=0;k<n;++k) {
+                const Vect3 A=vs[1+2*k], B=vs[2+2*k];
+                const Vect3 nn0=crossprod(A-v,B-v); const double A2=nn0.norm(); const Vect3 nn=nn0/A2;
+                auto fn=[&](const Vect3& y,double* val){
+                    const double phi=crossprod(A-y,B-y).norm()/A2;
+                    const Vect3 d=x-y; const double rr=d.norm(); const Vect3 w=crossprod(nn,d)*(phi/(rr*rr*rr));
+                    val[0]=w.x(); val[1]=w.y(); val[2]=w.z(); };
                 double out[3]; err+=reference<3>(fn,v,A,B,3,out);
                 for (int i=0;i<3;++i) tot[i]+=out[i];
             }
